@@ -5,6 +5,7 @@ import (
 	"go/token"
 	"go/types"
 	"os"
+	"sort"
 	"strings"
 
 	"golang.org/x/tools/go/ssa"
@@ -1032,4 +1033,99 @@ func blockCacheFacts(p *Program, g *ssa.Function, glc *LinCtx) []Lin {
 		}
 	}
 	return extra
+}
+
+// c08NilAfterError (round 7, C08-agent7-m3): an out-of-repo function that returns (pointer, error) returns a nil pointer
+// with the error.  Its pointer result may be dereferenced, have a method called on it or be handed on only where the
+// error was tested (err == nil on the path) or the pointer itself was.  `ch, _ := chainhash.NewHashFromStr(tv);
+// ch.CloneBytes()` behind a mere length test panics on a 64-character string that is not hex.
+func c08NilAfterError(p *Program, r *Report, fn *ssa.Function) int {
+	n := 0
+	errT := types.Universe.Lookup("error").Type()
+	for _, b := range fn.Blocks {
+		for _, in := range b.Instrs {
+			c, ok := in.(*ssa.Call)
+			if !ok {
+				continue
+			}
+			cal := c.Call.StaticCallee()
+			if cal == nil || p.InRepo(cal) || cal.Signature.Results().Len() != 2 {
+				continue
+			}
+			if _, isPtr := cal.Signature.Results().At(0).Type().Underlying().(*types.Pointer); !isPtr {
+				continue
+			}
+			if !types.Identical(cal.Signature.Results().At(1).Type(), errT) {
+				continue
+			}
+			var ptr, errv ssa.Value
+			for _, ref := range *c.Referrers() {
+				if ex, ok := ref.(*ssa.Extract); ok {
+					if ex.Index == 0 {
+						ptr = ex
+					} else {
+						errv = ex
+					}
+				}
+			}
+			if ptr == nil {
+				continue
+			}
+			var bad []string
+			nuse := 0
+			for _, u := range *ptr.Referrers() {
+				what := ""
+				switch x := u.(type) {
+				case *ssa.UnOp:
+					if x.Op == token.MUL {
+						what = "dereferenced"
+					}
+				case *ssa.FieldAddr:
+					what = "field accessed"
+				case *ssa.IndexAddr:
+					what = "indexed"
+				case *ssa.Slice:
+					what = "sliced"
+				case *ssa.Call:
+					if len(x.Call.Args) > 0 && x.Call.Args[0] == ptr && x.Call.StaticCallee() != nil && x.Call.StaticCallee().Signature.Recv() != nil {
+						what = "used as the receiver of " + x.Call.StaticCallee().Name()
+					}
+				}
+				if what == "" {
+					continue
+				}
+				nuse++
+				ok := false
+				for _, cd := range MustCondsAtBlock(fn, u.Block()) {
+					bo, isB := cd.V.(*ssa.BinOp)
+					if !isB {
+						continue
+					}
+					for _, v := range []ssa.Value{errv, ptr} {
+						if v == nil {
+							continue
+						}
+						if (bo.X == v && isNilConst(bo.Y)) || (bo.Y == v && isNilConst(bo.X)) {
+							wantNil := v == errv // err == nil, ptr != nil
+							isEq := (bo.Op == token.EQL && cd.Truth) || (bo.Op == token.NEQ && !cd.Truth)
+							if isEq == wantNil {
+								ok = true
+							}
+						}
+					}
+				}
+				if !ok {
+					bad = append(bad, what+" at "+p.Pos(u.Pos()))
+				}
+			}
+			if nuse == 0 {
+				continue
+			}
+			n++
+			sort.Strings(bad)
+			r.Add("C08.nil", FnName(fn), "the pointer result of "+calleeName(&c.Call)+" is used only where its error was tested", c.Pos(), len(bad) == 0,
+				strings.Join(bad, "; ")+" without err == nil (or a nil test of the pointer) on the path")
+		}
+	}
+	return n
 }
